@@ -175,6 +175,11 @@ type Config struct {
 	OnQuiescent func(s *Sched) // called (controller context) whenever no thread is enabled, before time advances
 	Horizon     int64          // virtual time horizon; timers beyond it never fire (0 = none)
 	Events      bool           // keep the event log
+	// CoFire (lazy clock): wake-ups due at the same virtual instant are concurrent, not merely ordered —
+	// after one of them fired at a quiescent state the others may fire at once (free choice), so that
+	// the woken threads interleave, or at any later point while threads run (costs a preemption, like
+	// an eager expiry). Without it each simultaneous wake-up runs to quiescence before the next fires.
+	CoFire bool
 }
 
 // Result of one execution.
@@ -190,9 +195,9 @@ type Result struct {
 	// 0 every goroutine is blocked for good (the Go runtime would abort with "all goroutines are
 	// asleep"); otherwise the program is still ticking beyond the virtual-time horizon.
 	TimersBeyondHorizon int
-	Trace     []Step
-	EndClock  int64
-	Threads   int
+	Trace               []Step
+	EndClock            int64
+	Threads             int
 }
 
 // Sched is the state of one execution.
@@ -599,6 +604,7 @@ type ctlBlocked struct{ desc string }
 //
 //go:norace
 func (s *Sched) pickNext(from *Thread) *Thread {
+	declined := false // CoFire: the due wake-ups were just offered and left for later
 	for {
 		if s.abandoned {
 			return nil
@@ -654,6 +660,18 @@ func (s *Sched) pickNext(from *Thread) *Thread {
 			}
 			if s.timerPending() {
 				s.fireEarliest()
+				for s.cfg.CoFire && !s.abandoned && s.timerDue() {
+					// (a free choice of its own kind: the eager question below would otherwise be asked in
+					// the very same state, under the same key)
+					if s.choose(KClock, 2, false, from) != 1 || s.abandoned {
+						declined = true
+						break
+					}
+					s.fireEarliest()
+				}
+				if s.abandoned {
+					return nil
+				}
 				continue
 			}
 			s.res.Stuck = true
@@ -665,7 +683,7 @@ func (s *Sched) pickNext(from *Thread) *Thread {
 			}
 			return nil
 		}
-		if s.cfg.EagerClock && s.timerPending() {
+		if (s.cfg.EagerClock && s.timerPending()) || (s.cfg.CoFire && !declined && s.timerDue()) {
 			// eager clock: a pending timer may expire now, while threads can still run
 			if s.choose(KTimer, 2, true, from) == 1 {
 				if s.abandoned {
